@@ -1809,3 +1809,52 @@ def _norm(self, p=2, dim=None, keepdim=False):
 
 if not hasattr(Tensor, "norm"):
     Tensor.norm = _norm
+
+
+# ---- appended for the transposed B-spline path (C14): integer helper ops used by core/nnutils.py ----
+def _fmod(self, o):
+    def f(x):
+        if not (isinstance(x, E) and x.is_const()):
+            raise TraceError("fmod of symbolic value")
+        a, b = x.value(), Fraction(o)
+        r = _b.abs(a) % _b.abs(b)  # torch.fmod: remainder with the sign of the dividend
+        return E.const(r if a >= 0 else -r)
+    return self._new(_un(f)(self.a))
+
+
+Tensor.fmod = _fmod
+
+
+# ---- allclose: the constant-vs-constant comparison above calls `abs`, which in this module is the torch.abs delegate;
+# re-defined with plain rational arithmetic (appended for the C06 unit: Grid.__eq__ on grids with concrete sizes) ----
+def _allclose_c06(a, b, rtol=1e-5, atol=1e-8):
+    av, bv = np.broadcast_arrays(a.a, b.a)
+    for x, y in zip(av.reshape(-1), bv.reshape(-1)):
+        if x.same(y):
+            continue
+        if GENERIC_DISTINCT and x.op == "var" and y.op == "var":
+            return False
+        if ASSUME_ALLCLOSE:
+            ALLCLOSE_LOG.append((av.copy(), bv.copy()))
+            return True
+        if x.is_const() and y.is_const():
+            d = x.value() - y.value()
+            d = -d if d < 0 else d
+            ay = y.value() if y.value() >= 0 else -y.value()
+            if d > Fraction(repr(atol)) + Fraction(repr(rtol)) * ay:
+                return False
+            continue
+        raise TraceError("allclose on symbolic values")
+    return True
+
+
+allclose = _allclose_c06
+
+
+# ---- nn.Module._buffers (spatial/base.py NonRigidTransform.tensor: `"u" in self._buffers`) -- appended for the C06 unit ----
+def _module_buffers_dict(self):
+    return {n: getattr(self, n) for n in self.__dict__.get("_sym_buffers", []) if hasattr(self, n)}
+
+
+if not hasattr(_NN.Module, "_buffers"):
+    _NN.Module._buffers = property(_module_buffers_dict)
